@@ -8,6 +8,7 @@ C03 — System.Storage.Get (point reads), live and historic.
 Core Lean only.
 -/
 import NeoModel.Model.StateCommit.Find
+import NeoModel.Model.Mpt.Proof
 namespace NeoModel.StateCommit.Find
 open NeoModel.Store (Layer layerSays)
 
@@ -20,12 +21,19 @@ def layersGet (base : Bytes → Option Bytes) : List Layer → Bytes → Option 
     | some none => none
     | none => layersGet base Ls k
 
-/-- trie_store.go:36-52 `TrieStore.Get` (`none` = ErrKeyNotFound or the unsupported-key error: both
-make `GetStorageItem` return nil). -/
+/-- mpt.MaxKeyLength (extension.go:20): (limits.MaxStorageKeyLen + 4) bytes = contract id ‖ longest key. -/
+def maxKeyLength : Nat := 68
+
+/-- trie_store.go:36-52 `TrieStore.Get` (`none` = ErrKeyNotFound, the unsupported-key error or the
+"key too long" error of `Trie.Get`: all make `GetStorageItem` return nil). The length guard is the one of
+`Trie.Get` (trie.go:78: `len(key) > MaxKeyLength`), applied to the key WITHOUT the storage prefix byte. -/
 def trieStoreGet (t : Mpt.Node) (key : Bytes) : Option Bytes :=
   match key with
   | [] => none
-  | b :: k' => if b = 0x70 ∨ b = 0x71 then Mpt.lookup t (Mpt.toNibbles k') else none
+  | b :: k' =>
+    if b = 0x70 ∨ b = 0x71 then
+      if k'.length > maxKeyLength then none else Mpt.lookup t (Mpt.toNibbles k')
+    else none
 
 /-- System.Storage.Get in a historic invocation: `none` = Null on the stack. -/
 def getHistoric (t : Mpt.Node) (layers : List Layer) (sp : UInt8) (id : Nat) (key : Bytes) : Option Bytes :=
@@ -34,5 +42,13 @@ def getHistoric (t : Mpt.Node) (layers : List Layer) (sp : UInt8) (id : Nat) (ke
 /-- … and on the live node. -/
 def getLive (s : Store.Store) (sp : UInt8) (id : Nat) (key : Bytes) : Option Bytes :=
   s.get (storageKey sp id key)
+
+/-- System.Storage.Get as the VM sees it: `none` = FAULT (`makeStorageItemKey` overflows the private DAO's
+key buffer for a key of more than 64 bytes, dao.go:994-1000), `some none` = Null, `some (some v)` = the value. -/
+def getSyscallHistoric (t : Mpt.Node) (layers : List Layer) (sp : UInt8) (id : Nat) (key : Bytes) : Option (Option Bytes) :=
+  if keyBufOverflow key then none else some (getHistoric t layers sp id key)
+
+def getSyscallLive (s : Store.Store) (sp : UInt8) (id : Nat) (key : Bytes) : Option (Option Bytes) :=
+  if keyBufOverflow key then none else some (getLive s sp id key)
 
 end NeoModel.StateCommit.Find
